@@ -85,7 +85,15 @@ pub fn build_colr_font(nodes: &[Node]) -> Result<Vec<u8>, String> {
     let clips: Vec<Clip> = bases
         .iter()
         .filter(|t| nodes[**t - 1].clip)
-        .map(|t| Clip::new(gid_of(*t), gid_of(*t), ClipBox::format_1(FWord::new(0), FWord::new(0), FWord::new(100 + *t as i16), FWord::new(100))))
+        .map(|t| {
+            // every other clip box is degenerate (no width, or max below min): it still is a clip box
+            let (x_max, y_max) = match *t % 3 {
+                0 => (0, 100),
+                1 => (100 + *t as i16, 100),
+                _ => (100, -5),
+            };
+            Clip::new(gid_of(*t), gid_of(*t), ClipBox::format_1(FWord::new(0), FWord::new(0), FWord::new(x_max), FWord::new(y_max)))
+        })
         .collect();
     if !clips.is_empty() {
         colr.clip_list = Some(ClipList::new(1, clips.len() as u32, clips)).into();
